@@ -122,7 +122,7 @@ Lemma group_total_rows Rw n set i s : (0 < n)%nat -> List.length s = (Rw * n)%na
 Proof.
   intros Hn Hs. unfold group_total, indicator. numR.
   assert (HL : List.length (reshape Rw n s) = Rw) by (unfold reshape; now apply chunk_length).
-  rewrite <- HL at 1 3. apply (selected_sum (reshape Rw n s) i (fun r => existsb (Nat.eqb r) set) 0).
+  set (M := reshape Rw n s) in *. rewrite <- HL. apply (selected_sum M i (fun r => existsb (Nat.eqb r) set) 0).
 Qed.
 
 (* with unique qualified ids, one per row: the set of a label sums exactly the rows whose id ends with the label *)
@@ -215,8 +215,7 @@ Section MF.
     change (c :: cs) with ([c] ++ cs). change (c' :: cs') with ([c'] ++ cs'). rewrite !sat_all_app, IH.
     assert (G : sat_all [c] s <-> sat_all [c'] s).
     { rewrite !sat_all_forall. split; intros Hall x [<-|[]]; [specialize (Hall c (or_introl eq_refl))|specialize (Hall c' (or_introl eq_refl))];
-        unfold holds in *; rewrite ?E, ?F in * by exact Hs; try exact Hall.
-      - rewrite <- E. rewrite <- F by exact Hs. exact Hall. }
+        unfold holds in *; rewrite ?E, ?F in * by exact Hs; exact Hall. }
     tauto.
   Qed.
 
@@ -272,11 +271,11 @@ Section MF.
 End MF.
 
 (* non-vacuity: a set with aggregate bounds [1,2] in slot 0 and exactly 3 in slot 1 over two rows *)
-Lemma example_agg : agg_ok [(1, 2); (3, 3)] 2 2 [1; 1; 0.5; 2] /\ ~ agg_ok [(1, 2); (3, 3)] 2 2 [1; 1; 0.5; 1].
+Lemma example_agg : agg_ok [(1, 2); (3, 3)] 2 2 [1; 1; 1/2; 2] /\ ~ agg_ok [(1, 2); (3, 3)] 2 2 [1; 1; 1/2; 1].
 Proof.
-  assert (T : forall a b c d i, slot_total 2 2 i [a; b; c; d] = match i with O => a + (c + 0) | 1%nat => b + (d + 0) | _ => 0 + (0 + 0) end).
-  { intros a b c d [|[|i]]; reflexivity. }
+  assert (T0 : forall a b c d, slot_total 2 2 0 [a; b; c; d] = a + (c + 0)) by reflexivity.
+  assert (T1 : forall a b c d, slot_total 2 2 1 [a; b; c; d] = b + (d + 0)) by reflexivity.
   split.
-  - intros [|[|i]] Hi; rewrite T; unfold lo, hi; cbn; try lra; lia.
-  - intros Ha. specialize (Ha 1%nat (Nat.lt_succ_diag_r 1)). rewrite T in Ha. unfold lo, hi in Ha. cbn in Ha. lra.
+  - intros [|[|i]] Hi; [rewrite T0|rewrite T1|lia]; unfold lo, hi; cbn [nth fst snd]; lra.
+  - intros Ha. specialize (Ha 1%nat (Nat.lt_succ_diag_r 1)). rewrite T1 in Ha. unfold lo, hi in Ha. cbn [nth fst snd] in Ha. lra.
 Qed.
